@@ -121,9 +121,9 @@ int snoopy_util_parser_strByteLength (char const * const numberAsText, const int
     char const *numberAsTextPtr       = numberAsText;
     int  numbersBufLength             = 20; // 20 characters are needed to store max long long int in decimal representation + \0.
     char numbersBuf[numbersBufLength];
-    int  numberInt;
-    int  factor = 1;
-    int  result;
+    long long numberInt;
+    long long factor = 1;
+    long long result;
 
     // Extract numbers
     while ((*numberAsTextPtr != '\0') && isdigit(*numberAsTextPtr) && (numberAsTextPtr-numberAsText < numbersBufLength-2)) {
@@ -133,9 +133,12 @@ int snoopy_util_parser_strByteLength (char const * const numberAsText, const int
     numbersBuf[numberAsTextPtr - numberAsText] = '\0';
 
     // Convert to int
-    numberInt = atoi(numbersBuf);
+    numberInt = strtoll(numbersBuf, NULL, 10);   // At most 18 digits are extracted above, which always fit
     if (numberInt == 0) {
         return valDefault;
+    }
+    if (numberInt > valMax) {
+        numberInt = valMax;   // Saturate before applying the factor, the result is capped to valMax anyway
     }
 
     // Apply metric prefixes
@@ -150,5 +153,5 @@ int snoopy_util_parser_strByteLength (char const * const numberAsText, const int
     if (result < valMin) result = valMin;
     if (result > valMax) result = valMax;
 
-    return result;
+    return (int) result;
 }
